@@ -195,7 +195,12 @@ class SgzCropper(SgzReader):
             new_sgz_file.write(compressed_bytes)
 
             self.read_variant_headers()
+            footer_offsets = []
             for k in self.stored_header_keys:
+                # Header words which duplicate another share its footer slot, write each slot once
+                if self.segy_traceheader_template[k] in footer_offsets:
+                    continue
+                footer_offsets.append(self.segy_traceheader_template[k])
                 header_array = self.variant_headers[k].reshape((self.n_ilines, self.n_xlines)).astype(np.int32)
                 cropped_header_array = header_array[iline_index_range[0]:iline_index_range[1],
                                                     xline_index_range[0]:xline_index_range[1]]
